@@ -460,7 +460,12 @@ impl Engine {
             Op::HSeek { s, .. } => {
                 let sf = resolve_seek(s, len, h.pos);
                 self.trace.push(format!("h{}.seek({:?}) [pos {} len {}]", slot, sf, h.pos, len));
-                let res = guard("h_seek", || h.stream.seek(sf))?;
+                // every third relative seek goes through Seek::seek_relative (same contract,
+                // the position is queried afterwards)
+                let res = match sf {
+                    SeekFrom::Current(off) if self.op_index % 3 == 0 => guard("h_seek_relative", || h.stream.seek_relative(off).and_then(|_| h.stream.stream_position()))?,
+                    _ => guard("h_seek", || h.stream.seek(sf))?,
+                };
                 match (model_seek(sf, len, h.pos), res) {
                     (Some(exp), Ok(got)) => {
                         if exp != got {
